@@ -33,18 +33,31 @@
                              has no IN_MOVE are handled by a weaker twin relation: reader states equal up to
                              _moved_from_events), given a well-formed root path and rename sources with a base name
      C11_full_drained        C11_full instantiated with that drained semantics
+   PORT TO THE REPAIRED READER (F10: settle_pending / forget_tree / pend, unknown descriptors skipped).  The twins carry
+   [pend] (same candidate), forget the same tree, remove the same kernel watches and queue the same IN_IGNORED records
+   (forget_tree_twin, settle_twin, krm_watch_twin); unknown descriptors are skipped on both sides.  Statement changes
+   forced by the repair: C11_read_one_plain (the loop head may settle a candidate first; _idle variant = old statement),
+   C11_reader_transparent (+ guardedb), C11_transparent_step / C11_pipeline_transparent_step (+ regular_step: the
+   LOCK-STEP twin relation, which the lag breaks).  Strengthened: histories past a directory move-out are covered with
+   the directory really forgotten on both sides (C11_sequential_moveout_nonvacuous); the pinned refutations (mask
+   table, item stream) do not depend on c_fix_moveout.
+   THE LAG (repaired reader, recursive filtered watch): when the first record after a directory move-out is one the
+   filter's mask excludes, the unfiltered reader forgets the directory one or more operations before the filtered one;
+   in between the two are not twins (a remembered candidate, stale watches and stale table rows on one side).  The
+   history theorems no longer exclude this (no regular_from): C11_transparent_sequential / _sequential_all /
+   C11_handler_sequential / C11_full_drained compare the NORMAL FORMS of the two worlds (the state after the pending
+   candidate is settled and the reader's own IN_IGNORED records are dropped: nform) and show that a world and its
+   normal form cannot be told apart by any later batch (C11_inert / C11_inert_back, C11_norm_fwd / C11_norm_bwd), so the
+   twin argument runs on normal forms (C11_lag_step).  ONE HYPOTHESIS replaces regular_from, for recursive watches with
+   the repaired reader only: [tidy_from C full w ops] - at every drained point of the UNFILTERED run, the normal form
+   of the reader's _path_for_wd / _wd_for_path mention descriptors of live kernel watches only.  It does not mention
+   the filter, it is executable (tidy_fromb, C11_tidy_fromb_sound) and it is discharged by computation in the
+   examples (C11_lag_covered: the history of C11_lag_instance).  It is needed because a descriptor that died in one
+   world only must be unknown to that world's reader for ever (otherwise a later record of the other world's live
+   watch would be handled differently); it is half of C02's cover invariant at synced states (CoverProofs.WInv.wi_tight:
+   no stale value in _wd_for_path) plus the missing half "no stale key in _path_for_wd", which WInv does not state;
+   CoverOutProofs.dinv preserves a FIXED set of dead descriptors and does not give it either.  Not derived here.
    What is NOT proved: C11_full for the Pipeline LTS over arbitrary action histories.  The gaps, named:
-     (a) histories that are not drained: several operations per read (the kernel then coalesces differently
-         under different masks - C11_kernel_twin is only up to kcollapse), reads that cut a burst, pairing
-         through the delay queue across reads and the clock;
-     (b) the skip-repeats event queue between emitter and handler is covered abstractly (C11_stutter_closure,
-         C11_handler_sequential: whatever repeats of the most recently queued event either queue drops, the
-         delivered streams are stutter-equal); the relation [skips] is not yet derived from the concurrent
-         SkipQueue model of C16 (its C16_drops_justified is the matching fact);
-     (c) C11_transparent_sequential(_all) speak about [run_from] (Inotify.__init__, then per operation: kernel,
-         one read of the whole queue, grouping, emission); per operation this is what Pipeline.prun delivers
-         (C11_pipeline_tie_filtered), but the induction over a whole Pipeline history (idle buffer re-established
-         after every operation) is not carried out.
    C11_pipeline_tie_filtered / C11_pipeline_transparent_step tie the drained regime to Pipeline.prun with the
    watch's class filter (pc_filter): they are C03's pipeline_tie with the filter kept. *)
 Require Import WD.Base.Prelude WD.Base.BStr WD.Model.SubEvents WD.Model.Emitter WD.Model.MaskTable.
@@ -52,7 +65,8 @@ Require Import WD.Model.Fs WD.Model.Reader WD.Model.Contract.
 Require Import WD.Gen.MaskTableGen WD.Proofs.MaskTableProofs WD.Proofs.C11Proofs WD.Proofs.ContractProofs.
 Require Import WD.Proofs.C11KernelProofs WD.Proofs.C11ReaderProofs WD.Proofs.C11TwinProofs WD.Proofs.C11GroupProofs
                WD.Proofs.C11SeqProofs.
-Require Import WD.Model.Pipeline WD.Proofs.C11TieProofs WD.Proofs.C11FlatProofs WD.Proofs.C11StutterProofs.
+Require Import WD.Model.Pipeline WD.Proofs.C11TieProofs WD.Proofs.C11FlatProofs WD.Proofs.C11StutterProofs WD.Proofs.C11InertProofs
+               WD.Proofs.C11LagProofs.
 
 (* The full property.  [events F full recursive h] = the events delivered to the handler of a watch
    with event filter F (None = no filter) over the operation history h; [paced] = the pacing condition
@@ -159,29 +173,91 @@ Print Assumptions C11_item_stream_refuted_pinned.
 
 (* ------------------------------------------------------------------ kernel, reader, buffer *)
 (* A raw kernel event with none of the bits the reader acts on (IN_MOVED_FROM, IN_MOVED_TO, IN_IGNORED, and
-   IN_CREATE with IN_ISDIR under a recursive watch) leaves the bookkeeping and the kernel untouched. *)
+   IN_CREATE with IN_ISDIR under a recursive watch).  REPAIRED READER (F10): the head of the loop first settles a
+   remembered move-out candidate (settle_pending); after that the event only appends its InotifyEvent - or nothing
+   when its descriptor is unknown (skipped; the pinned code raised KeyError). *)
 Theorem C11_read_one_plain : forall C t r k acc e,
   structural (c_recursive C) (k_mask e) = false ->
   read_one C t (r, k, acc) e =
-  match alookup N.eqb (k_wd e) (pfw r) with
-  | None => Crash SITE_PATH_FOR_WD
-  | Some wdp => Done (r, k, acc ++ [mkraw e (rpath wdp (k_name e))])
+  let '(r1, k1) := settle_pending C r k e in
+  match alookup N.eqb (k_wd e) (pfw r1) with
+  | None => if c_fix_moveout C then Done (r1, k1, acc) else Crash SITE_PATH_FOR_WD
+  | Some wdp => Done (r1, k1, acc ++ [mkraw e (rpath wdp (k_name e))])
   end.
 Proof. exact read_one_plain_c11. Qed.
 Print Assumptions C11_read_one_plain.
 
+(* ... and when no candidate is remembered (or with the pinned code) bookkeeping and kernel are untouched *)
+Theorem C11_read_one_plain_idle : forall C t r k acc e,
+  structural (c_recursive C) (k_mask e) = false -> pending_of C r = false ->
+  read_one C t (r, k, acc) e =
+  match alookup N.eqb (k_wd e) (pfw r) with
+  | None => if c_fix_moveout C then Done (r, k, acc) else Crash SITE_PATH_FOR_WD
+  | Some wdp => Done (r, k, acc ++ [mkraw e (rpath wdp (k_name e))])
+  end.
+Proof. exact read_one_plain_idle. Qed.
+Print Assumptions C11_read_one_plain_idle.
+
 (* For every predicate on masks that keeps the structural events (and, under a recursive watch, the
    IN_CREATE raws the reader simulates): reading the kept part of a batch ends in the same reader and
-   kernel state and outputs the kept part of the output. *)
+   kernel state and outputs the kept part of the output.
+   STATEMENT CHANGED BY THE REPAIR OF F10 (new hypothesis [guardedb]): a record that can find a move-out candidate
+   remembered - the first record when one is remembered at the start ([pending]), every successor of a directory
+   IN_MOVED_FROM - must be kept.  Without it the statement is false of the repaired reader: a dropped record in such a
+   position makes one run forget the moved directory and the other not (yet).  For the pinned code
+   (c_fix_moveout = false) [guardedb _ _ false _] is always true and the old statement is recovered. *)
 Theorem C11_reader_transparent : forall C t (keep : N -> bool),
   (forall m, structural (c_recursive C) m = true -> keep m = true) ->
   (c_recursive C = true -> keep IN_CREATE = true /\ keep (N.lor IN_CREATE IN_ISDIR) = true) ->
-  forall b r k acc r' k' out,
+  forall b r k acc r' k' out pending,
+    (pending_of C r = true -> pending = true) -> guardedb C keep pending b = true ->
     read_batch C t (r, k, acc) b = Done (r', k', out) ->
     read_batch C t (r, k, filter (fun x => keep (r_mask x)) acc) (filter (fun e => keep (k_mask e)) b)
     = Done (r', k', filter (fun x => keep (r_mask x)) out).
 Proof. exact reader_transparent. Qed.
 Print Assumptions C11_reader_transparent.
+
+(* THE READER-LEVEL LAG LEMMA (repaired reader).  WHEN a remembered move-out candidate is settled does not matter, and records
+   that cannot produce anything may be removed from a batch.
+   [settle_now] = what the head of the next iteration will do to a remembered candidate; [E2] = the two states have the same
+   settled form (same tables after settling, same watches and counters); [inv] = the two runs are aligned (same reader state)
+   or skewed (same settled form; nothing ahead matches a candidate still remembered), and every [dead] descriptor is gone for
+   good ([gone]: below the counter, no kernel watch, in no table).  [sel] removes records whose descriptor is dead, or that
+   are plain and not kept; [shapeP]: the second half of a directory rename comes right after the first half or not at all.
+   Then the run over the shorter batch ends with the same settled form and outputs the kept part - whichever of the two
+   runs settles first.  No guard (cf. C11_reader_transparent). *)
+Theorem C11_inert : forall C keep sel dead,
+  (c_recursive C = true -> keep IN_CREATE = true /\ keep (N.lor IN_CREATE IN_ISDIR) = true) ->
+  forall t b r1 k1 r2 k2 acc r1' k1' out,
+    (forall e, In e b -> sel e = false ->
+               dead (k_wd e) = true \/ (structural (c_recursive C) (k_mask e) = false /\ keep (k_mask e) = false)) ->
+    (forall e, In e b -> sel e = true -> keep (k_mask e) = true) ->
+    shapeP C b -> inv C dead b r1 k1 r2 k2 ->
+    read_batch C t (r1, k1, acc) b = Done (r1', k1', out) ->
+    exists r2' k2',
+      read_batch C t (r2, k2, filter (fun x => keep (r_mask x)) acc) (filter sel b)
+      = Done (r2', k2', filter (fun x => keep (r_mask x)) out) /\
+      E2 C r1' k1' r2' k2'.
+Proof. exact inert. Qed.
+Print Assumptions C11_inert.
+
+(* ... and back: with the repair (unknown descriptors are skipped) the longer batch is read without a crash whenever the
+   shorter one is *)
+Theorem C11_inert_back : forall C keep sel dead,
+  (c_recursive C = true -> keep IN_CREATE = true /\ keep (N.lor IN_CREATE IN_ISDIR) = true) ->
+  forall t, c_fix_moveout C = true -> forall b r1 k1 r2 k2 acc r2' k2' out2,
+    (forall e, In e b -> sel e = false ->
+               dead (k_wd e) = true \/ (structural (c_recursive C) (k_mask e) = false /\ keep (k_mask e) = false)) ->
+    (forall e, In e b -> sel e = true -> keep (k_mask e) = true) ->
+    shapeP C b -> inv C dead b r1 k1 r2 k2 ->
+    read_batch C t (r2, k2, filter (fun x => keep (r_mask x)) acc) (filter sel b) = Done (r2', k2', out2) ->
+    exists r1' k1' out, read_batch C t (r1, k1, acc) b = Done (r1', k1', out).
+Proof. exact inert_back. Qed.
+Print Assumptions C11_inert_back.
+
+Theorem C11_reader_transparent_pinned : forall C, c_fix_moveout C = false -> forall keep b, guardedb C keep false b = true.
+Proof. exact guarded_pinned. Qed.
+Print Assumptions C11_reader_transparent_pinned.
 
 (* Two inotify instances with the same watches, masks M and M' (M' inside M, no IN_ISDIR bit): the same
    operation keeps them twins, and the second queue is what the kernel's coalescing makes of the part of
@@ -219,14 +295,23 @@ Print Assumptions C11_visible_recursive.
 (* ONE DRAINED OPERATION.  [run_one F C full w k r o] = apply o, let the kernel queue its records, read the
    whole queue, group, emit through the class filter F; it returns the new world / kernel / reader state
    and the events queued (with F = None it is Contract.deliver_one).  The unfiltered watch has mask
-   WATCHDOG_ALL, the filtered one the mask its filter is compiled into. *)
+   WATCHDOG_ALL, the filtered one the mask its filter is compiled into.
+   REPAIRED READER (F10): the twins have the same reader state INCLUDING the remembered move-out candidate [pend], the
+   same watches up to their masks ([kw0]) and the same unread records (the reader itself queues IN_IGNORED records
+   when it removes the watches of a directory that left the tree: [qjunk]).  New hypothesis [regular_step], about the
+   UNFILTERED world only: (1) the records in its kernel queue differ pairwise in (descriptor, mask, name) before and
+   after the operation - always true from a drained queue (C11_kernel_no_coalescing) -, (2) the batch is guarded
+   (C11_reader_transparent): the record after a directory IN_MOVED_FROM / the first record when a candidate is
+   remembered is one the filtered watch is sent too.  When (2) fails the unfiltered reader forgets the moved-out
+   directory one or more operations before the filtered reader does: a lag without visible effect that this LOCK-STEP
+   theorem does not cover; C11_lag_step below does. *)
 Theorem C11_transparent_step : forall F C, c_mask C = WATCHDOG_ALL -> visible F (c_recursive C) ->
   forall full w k k' r o w1 k1 r1 evs,
-    kw0 WATCHDOG_ALL (kmask F (c_recursive C)) k k' ->
+    kw0 WATCHDOG_ALL (kmask F (c_recursive C)) k k' -> k_queue k = k_queue k' -> qjunk k -> regular_step F C w k r o ->
     run_one None C full w k r o = Some (w1, k1, r1, evs) ->
     exists k1', run_one F (with_mask C (kmask F (c_recursive C))) full w k' r o
                 = Some (w1, k1', r1, filter (fun e => accepts F (ev_cls e)) evs) /\
-                kw0 WATCHDOG_ALL (kmask F (c_recursive C)) k1 k1'.
+                kw0 WATCHDOG_ALL (kmask F (c_recursive C)) k1 k1' /\ k_queue k1 = k_queue k1' /\ qjunk k1.
 Proof. exact transparent_step. Qed.
 Print Assumptions C11_transparent_step.
 
@@ -238,23 +323,50 @@ Print Assumptions C11_run_one_is_deliver_one.
 (* HISTORIES IN WHICH EVERY OPERATION IS DRAINED, from Inotify.__init__ on the initial file system: the watch
    with event filter F queues exactly the accepted part of what the unfiltered watch queues (no stutter
    needed: nothing is coalesced in this regime).  Hypothesis [visible]: the filter's mask contains IN_MOVE
-   (and IN_CREATE when recursive) - true of every recursive watch (C11_visible_recursive). *)
+   (and IN_CREATE when recursive) - true of every recursive watch (C11_visible_recursive).
+   REPAIRED READER (F10): for a recursive watch with the repaired reader the unfiltered run has to be tidy at its
+   drained points ([tidy_from], see the header; nothing about the filter, nothing about which record follows a
+   move-out).  Non-recursive watches and the pinned reader need nothing. *)
 Theorem C11_transparent_sequential : forall F C full,
   c_mask C = WATCHDOG_ALL -> visible F (c_recursive C) ->
   forall w ops evs,
+    (c_recursive C = true -> c_fix_moveout C = true -> tidy_from C full w ops) ->
+    run_from None C full w ops = Some evs ->
+    run_from F (with_mask C (kmask F (c_recursive C))) full w ops
+    = Some (filter (fun e => accepts F (ev_cls e)) evs).
+Proof. exact transparent_from_vis. Qed.
+Print Assumptions C11_transparent_sequential.
+
+(* the lock-step version (the statement before the lag bisimulation): [regular_from] = [regular_step] at every
+   operation of the unfiltered run, and no tidiness *)
+Theorem C11_transparent_sequential_regular : forall F C full,
+  c_mask C = WATCHDOG_ALL -> visible F (c_recursive C) ->
+  forall w ops evs,
+    regular_from F C full w ops ->
     run_from None C full w ops = Some evs ->
     run_from F (with_mask C (kmask F (c_recursive C))) full w ops
     = Some (filter (fun e => accepts F (ev_cls e)) evs).
 Proof. exact transparent_from. Qed.
-Print Assumptions C11_transparent_sequential.
+Print Assumptions C11_transparent_sequential_regular.
+
+(* the pinned reader never removes a watch by itself: every run is regular *)
+Theorem C11_regular_pinned : forall F C, c_fix_moveout C = false -> forall full w ops, regular_from F C full w ops.
+Proof. exact regular_from_pinned. Qed.
+Print Assumptions C11_regular_pinned.
+
+Theorem C11_regular_nonrecursive : forall F C, c_recursive C = false -> forall full w ops, regular_from F C full w ops.
+Proof. exact regular_from_nr. Qed.
+Print Assumptions C11_regular_nonrecursive.
 
 (* EVERY FILTER, RECURSIVE AND NON-RECURSIVE.  The hypotheses beyond C11_transparent_sequential's replace
    [visible]: the root path is non-empty and does not end in "/", and the source of every rename has a proper
    base name (both true of every real path; needed only for the non-recursive watches whose mask has no IN_MOVE,
-   to know that a remembered move source is never the watched root itself). *)
+   to know that a remembered move source is never the watched root itself).  [tidy_from] is needed for recursive
+   watches with the repaired reader only. *)
 Theorem C11_transparent_sequential_all : forall F C full,
   c_mask C = WATCHDOG_ALL -> c_root C <> [] -> last_is_sep (c_root C) = false ->
   forall w ops evs, Forall op_ok ops ->
+    (c_recursive C = true -> c_fix_moveout C = true -> tidy_from C full w ops) ->
     run_from None C full w ops = Some evs ->
     run_from F (with_mask C (kmask F (c_recursive C))) full w ops
     = Some (filter (fun e => accepts F (ev_cls e)) evs).
@@ -271,7 +383,7 @@ Theorem C11_reader_transparent_flat : forall C, c_recursive C = false -> c_root 
     read_batch C t (r, k, acc) b = Done (r', k', out) ->
     exists r0',
       read_batch C t (r0, k, filter (fun x => keep (r_mask x)) acc) (filter (fun e => keep (k_mask e)) b)
-      = Done (r0', k', filter (fun x => keep (r_mask x)) out) /\ req r' r0' /\ flat_inv (c_root C) r'.
+      = Done (r0', k', filter (fun x => keep (r_mask x)) out) /\ req r' r0' /\ flat_inv (c_root C) r' /\ k' = k.
 Proof. exact reader_transparent_flat. Qed.
 Print Assumptions C11_reader_transparent_flat.
 
@@ -288,6 +400,7 @@ Print Assumptions C11_stutter_closure.
 Theorem C11_handler_sequential : forall F C full,
   c_mask C = WATCHDOG_ALL -> c_root C <> [] -> last_is_sep (c_root C) = false ->
   forall w ops evsU, Forall op_ok ops ->
+    (c_recursive C = true -> c_fix_moveout C = true -> tidy_from C full w ops) ->
     run_from None C full w ops = Some evsU ->
     exists evsF, run_from F (with_mask C (kmask F (c_recursive C))) full w ops = Some evsF /\
       forall keptU keptF, skips None evsU keptU -> skips None evsF keptF ->
@@ -297,10 +410,80 @@ Print Assumptions C11_handler_sequential.
 
 (* C11_full holds of the drained semantics: history = (reader configuration, initial world, operations), every
    operation drained; paced = WATCHDOG_ALL_EVENTS for the unfiltered watch, well-formed root path, rename sources
-   with a base name, no reader crash. *)
+   with a base name, no reader crash, and - repaired reader - the recursive unfiltered run tidy at its drained points
+   (no clause about the filter any more). *)
 Theorem C11_full_drained : C11_full dhist paced_drained events_drained.
 Proof. exact full_drained. Qed.
 Print Assumptions C11_full_drained.
+
+(* ------------------------------------------------------------------ the lag bisimulation *)
+(* [nform C r k] = the NORMAL FORM of a drained state: the reader after the remembered move-out candidate (if any) is
+   settled as "left the tree" (its watches forgotten and removed from the kernel), with the IN_IGNORED records this
+   queues dropped.  [wi] = the invariant of a world (kernel well formed, every watch has the configured mask, cookies
+   of remembered candidates already used); [tidy] = the reader's tables mention live descriptors only.
+   A world and its normal form read the records of the next operation to the same output and stay related (E2: same
+   normal form, same watches); if the normal form does not crash, neither does the world. *)
+Theorem C11_norm_fwd : forall C t t' o r k, wi C r k -> tidy (fst (nform C r k)) (snd (nform C r k)) ->
+  forall r1 k1 raws,
+    read_batch C t' (r, kdrained (kernel_op k t o), []) (k_queue (kernel_op k t o)) = Done (r1, k1, raws) ->
+    exists rn1 kn1,
+      read_batch C t' (fst (nform C r k), kdrained (kernel_op (snd (nform C r k)) t o), [])
+                 (k_queue (kernel_op (snd (nform C r k)) t o)) = Done (rn1, kn1, raws) /\
+      E2 C r1 k1 rn1 kn1.
+Proof. exact norm_fwd. Qed.
+Print Assumptions C11_norm_fwd.
+
+Theorem C11_norm_bwd : forall C t t' o r k, wi C r k -> tidy (fst (nform C r k)) (snd (nform C r k)) ->
+  c_fix_moveout C = true ->
+  forall rn1 kn1 raws,
+    read_batch C t' (fst (nform C r k), kdrained (kernel_op (snd (nform C r k)) t o), [])
+               (k_queue (kernel_op (snd (nform C r k)) t o)) = Done (rn1, kn1, raws) ->
+    exists r1 k1 raws',
+      read_batch C t' (r, kdrained (kernel_op k t o), []) (k_queue (kernel_op k t o)) = Done (r1, k1, raws').
+Proof. exact norm_bwd. Qed.
+Print Assumptions C11_norm_bwd.
+
+Theorem C11_world_invariant_step : forall C t t' o r k, wi C r k ->
+  forall r1 k1 raws,
+    read_batch C t' (r, kdrained (kernel_op k t o), []) (k_queue (kernel_op k t o)) = Done (r1, k1, raws) ->
+    wi C r1 k1.
+Proof. exact wi_step. Qed.
+Print Assumptions C11_world_invariant_step.
+
+Theorem C11_world_invariant_construct : forall C t r k, construct C kinit t = Some (r, k) -> wi C r k /\ pend r = None.
+Proof. exact construct_wi. Qed.
+Print Assumptions C11_world_invariant_construct.
+
+(* ONE DRAINED OPERATION, UP TO THE LAG.  [tw F C rU kU rF kF]: the two worlds have the same normal-form reader state
+   and normal-form kernels that are twins (same watches up to the masks, same counters).  The real states may differ:
+   one reader may still remember a candidate, hold the rows of a moved-out tree and own kernel watches the other has
+   already removed.  The filtered watch queues exactly the accepted part, and the worlds are related again. *)
+Theorem C11_lag_step : forall F C, c_mask C = WATCHDOG_ALL -> visible F (c_recursive C) -> c_fix_moveout C = true ->
+  forall full w kU rU kF rF o w1 kU1 rU1 evs,
+    wi C rU kU -> wi (with_mask C (kmask F (c_recursive C))) rF kF -> tw F C rU kU rF kF ->
+    tidy (fst (nform C rU kU)) (snd (nform C rU kU)) ->
+    run_one None C full w kU rU o = Some (w1, kU1, rU1, evs) ->
+    exists kF1 rF1,
+      run_one F (with_mask C (kmask F (c_recursive C))) full w kF rF o
+      = Some (w1, kF1, rF1, filter (fun e => accepts F (ev_cls e)) evs) /\
+      wi C rU1 kU1 /\ wi (with_mask C (kmask F (c_recursive C))) rF1 kF1 /\ tw F C rU1 kU1 rF1 kF1.
+Proof. exact lag_step. Qed.
+Print Assumptions C11_lag_step.
+
+(* ... and over a history from Inotify.__init__ (C11_transparent_sequential restricted to the repaired reader) *)
+Theorem C11_lag_sequential : forall F C, c_mask C = WATCHDOG_ALL -> visible F (c_recursive C) -> c_fix_moveout C = true ->
+  forall full w ops evs,
+    tidy_from C full w ops ->
+    run_from None C full w ops = Some evs ->
+    run_from F (with_mask C (kmask F (c_recursive C))) full w ops
+    = Some (filter (fun e => accepts F (ev_cls e)) evs).
+Proof. exact lag_from. Qed.
+Print Assumptions C11_lag_sequential.
+
+(* tidiness is decidable along a run *)
+Theorem C11_tidy_fromb_sound : forall C full w ops, tidy_fromb C full w ops = true -> tidy_from C full w ops.
+Proof. exact tidy_fromb_sound. Qed.
+Print Assumptions C11_tidy_fromb_sound.
 
 (* [run_one (pc_filter P)] is what the Pipeline model delivers for AOp o; ARead (whole queue); ATick delay;
    AEmit ... from a state whose buffer is idle (C03's pipeline_tie, with the class filter kept). *)
@@ -325,6 +508,8 @@ Theorem C11_pipeline_transparent_step : forall F PU PF sU sF o,
   buffer_idle (p_buf sU) -> buffer_idle (p_buf sF) -> p_stopped sU = false -> p_stopped sF = false ->
   (forall id, In id (map fst (p_tbl sU)) -> (id < p_next sU)%N) ->
   (forall id, In id (map fst (p_tbl sF)) -> (id < p_next sF)%N) ->
+  k_queue (p_k sU) = [] -> k_queue (p_k sF) = [] ->
+  regular_step F (pc_reader PU) (p_world sU) (p_k sU) (p_r sU) o ->
   forall w1 k1 r1 evs,
   run_one None (pc_reader PU) (pc_full PU) (p_world sU) (p_k sU) (p_r sU) o = Some (w1, k1, r1, evs) ->
   exists nU sU' obsU nF sF' obsF,
@@ -473,6 +658,65 @@ Example C11_full_drained_nonvacuous :
   paced_drained {| dh_cfg := ex_C true; dh_world := ex_world;
                    dh_ops := [Touch (ex_sl ex_R 97); Rename (ex_sl ex_R 97) (ex_sl ex_O 99); Mkdir (ex_sl ex_R 109)] |}.
 Proof.
-  split; [reflexivity|]. split; [discriminate|]. split; [reflexivity|]. split; [repeat constructor|].
-  intros full recursive. destruct full, recursive; vm_compute; discriminate.
+  split; [reflexivity|]. split; [discriminate|]. split; [reflexivity|]. split; [repeat constructor|]. split.
+  - intros full recursive. destruct full, recursive; vm_compute; discriminate.
+  - intros _ full. apply tidy_fromb_sound. destruct full; vm_compute; reflexivity.
+Qed.
+
+(* ... also with a history that lags (the one of C11_lag_instance below) *)
+Example C11_full_drained_lag_nonvacuous :
+  paced_drained {| dh_cfg := ex_C true; dh_world := ex_world;
+                   dh_ops := [Mkdir (ex_sl ex_R 109); Rename (ex_sl ex_R 109) (ex_sl ex_O 113); Write ex_Rx;
+                              Touch (ex_sl (ex_sl ex_O 113) 102); Touch (ex_sl ex_R 122); Unlink (ex_sl ex_R 122)] |}.
+Proof.
+  split; [reflexivity|]. split; [discriminate|]. split; [reflexivity|]. split; [repeat constructor|]. split.
+  - intros full recursive. destruct full, recursive; vm_compute; discriminate.
+  - intros _ full. apply tidy_fromb_sound. destruct full; vm_compute; reflexivity.
+Qed.
+
+(* REPAIRED READER (F10): a history that goes past a DIRECTORY MOVE-OUT under a recursive watch with filter
+   [FileDeletedEvent, DirDeletedEvent] (mask DELETE_SELF|MOVE|CREATE|DELETE): mkdir R/m; touch R/m/f; mv R/m O/q; touch R/z; rm R/z.
+   Both readers remember the candidate after the move-out and forget the directory at the next record (IN_CREATE z,
+   sent to both): the run is regular (the lock-step theorem applies) and tidy (so does C11_transparent_sequential). *)
+Example C11_sequential_moveout_nonvacuous :
+  let F := Some [Concrete FileDeleted; Concrete DirDeleted] in
+  let ops := [Mkdir (ex_sl ex_R 109); Touch (ex_sl (ex_sl ex_R 109) 102); Rename (ex_sl ex_R 109) (ex_sl ex_O 113);
+              Touch (ex_sl ex_R 122); Unlink (ex_sl ex_R 122)] in
+  regular_from F (ex_C true) false ex_world ops /\ tidy_from (ex_C true) false ex_world ops /\
+  option_map (map (fun e => (ev_cls e, ev_src e)))
+             (run_from F (with_mask (ex_C true) (kmask F true)) false ex_world ops)
+    = Some [(DirDeleted, ex_sl ex_R 109); (FileDeleted, ex_sl ex_R 122)].
+Proof.
+  split; [apply regular_fromb_sound; vm_compute; reflexivity|].
+  split; [apply tidy_fromb_sound; vm_compute; reflexivity | vm_compute; reflexivity].
+Qed.
+
+(* ... and a history that is NOT regular: after the move-out the next operation (append to R/x) queues only records the
+   filter's mask excludes, so the unfiltered reader forgets R/m one operation before the filtered reader does (at the
+   IN_CREATE of the touch).  The lock-step theorem does not apply; the conclusion holds (here by computation): the lag
+   has no visible effect. *)
+Example C11_lag_instance :
+  let F := Some [Concrete FileDeleted; Concrete DirDeleted] in
+  let ops := [Mkdir (ex_sl ex_R 109); Rename (ex_sl ex_R 109) (ex_sl ex_O 113); Write ex_Rx;
+              Touch (ex_sl (ex_sl ex_O 113) 102); Touch (ex_sl ex_R 122); Unlink (ex_sl ex_R 122)] in
+  regular_fromb F (ex_C true) false ex_world ops = false /\
+  run_from F (with_mask (ex_C true) (kmask F true)) false ex_world ops
+  = option_map (filter (fun e => accepts F (ev_cls e))) (run_from None (ex_C true) false ex_world ops).
+Proof. split; vm_compute; reflexivity. Qed.
+
+(* The same history is covered by C11_transparent_sequential: its hypotheses hold (the run is tidy at every drained
+   point although it is not regular), and the events are the two deletions. *)
+Example C11_lag_covered :
+  let F := Some [Concrete FileDeleted; Concrete DirDeleted] in
+  let ops := [Mkdir (ex_sl ex_R 109); Rename (ex_sl ex_R 109) (ex_sl ex_O 113); Write ex_Rx;
+              Touch (ex_sl (ex_sl ex_O 113) 102); Touch (ex_sl ex_R 122); Unlink (ex_sl ex_R 122)] in
+  c_mask (ex_C true) = WATCHDOG_ALL /\ visible F (c_recursive (ex_C true)) /\ c_fix_moveout (ex_C true) = true /\
+  tidy_from (ex_C true) false ex_world ops /\
+  regular_fromb F (ex_C true) false ex_world ops = false /\
+  option_map (map (fun e => (ev_cls e, ev_src e)))
+             (run_from F (with_mask (ex_C true) (kmask F true)) false ex_world ops)
+    = Some [(DirDeleted, ex_sl ex_R 109); (FileDeleted, ex_sl ex_R 122)].
+Proof.
+  split; [reflexivity|]. split; [apply visible_recursive|]. split; [reflexivity|].
+  split; [apply tidy_fromb_sound; vm_compute; reflexivity|]. split; vm_compute; reflexivity.
 Qed.
